@@ -965,7 +965,9 @@ func (s *AbsfsNFS) Export(mountPath string, port int) error {
 	if err := server.Listen(); err != nil {
 		return err
 	}
+	s.exportMu.Lock()
 	s.exportServer = server
+	s.exportMu.Unlock()
 	return nil
 }
 
@@ -1040,11 +1042,13 @@ func (s *AbsfsNFS) Readlink(node *NFSNode) (string, error) {
 
 // Unexport stops serving the NFS export
 func (s *AbsfsNFS) Unexport() error {
-	// Stop the server if Export() created one
+	// Stop the server if Export() created one (see Close for the locking)
+	s.exportMu.Lock()
 	if s.exportServer != nil {
 		s.exportServer.Stop()
 		s.exportServer = nil
 	}
+	s.exportMu.Unlock()
 	// Cleanup all open file handles
 	s.fileMap.ReleaseAll()
 	// Clear caches
